@@ -21,7 +21,9 @@ func (e *Engine) execSelect(st *State, fr *Frame, x *ssa.Select, k callCont) {
 }
 func (e *Engine) execGo(st *State, fr *Frame, g *ssa.Go) { panic(unsupported("go statement")) }
 
-func (e *Engine) checkSharedWrite(st *State, fr *Frame, loc *Loc, pos string) {}
+func (e *Engine) checkSharedWrite(st *State, fr *Frame, loc *Loc, pos string) {
+	e.sharedAccess(st, fr, loc, true, pos)
+}
 
 func (e *Engine) havocGhost(st *State, w *writeSet)                       {}
 // havocGhostNamed implements `assigns ghost(name)` (whole ghost variable) and `assigns ghost(name, ref)` (one row).
